@@ -439,3 +439,24 @@ Proof.
   pose proof (validate_ctx_spec sigfrom selfsig purpose w st chain) as H.
   destruct (validate_ctx sigfrom selfsig purpose w st chain); [tauto|exact H].
 Qed.
+
+(* isolation lifted to the whole chain: worlds that agree on the exchanges of the certificates of a
+   chain (and on the clock) give the same result slice, whatever else differs between them; the
+   root's own URLs need not even agree, it is never checked *)
+Theorem isolation_chain w w' st : forall chain,
+  (forall c u, In c (removelast chain) -> In u (c_ocsp c) -> w_ocsp w u = w_ocsp w' u) ->
+  (forall c u, In c (removelast chain) -> In u (c_crl c) -> w_fetch w u = w_fetch w' u) ->
+  w_now w = w_now w' ->
+  check_positions w st chain = check_positions w' st chain.
+Proof.
+  induction chain as [|c r IH]; intros Ho Hc Hn; [reflexivity|].
+  destruct r as [|c2 r2]; [reflexivity|].
+  change (check_positions w st (c :: c2 :: r2)) with (check_cert w st c :: check_positions w st (c2 :: r2)).
+  change (check_positions w' st (c :: c2 :: r2)) with (check_cert w' st c :: check_positions w' st (c2 :: r2)).
+  assert (Hrl : removelast (c :: c2 :: r2) = c :: removelast (c2 :: r2)) by reflexivity.
+  f_equal.
+  - apply isolation; [intros u Hu; apply (Ho c u); [rewrite Hrl; left; reflexivity|exact Hu]
+                     |intros u Hu; apply (Hc c u); [rewrite Hrl; left; reflexivity|exact Hu]|exact Hn].
+  - apply IH; [intros x u Hx Hu; apply (Ho x u); [rewrite Hrl; right; exact Hx|exact Hu]
+              |intros x u Hx Hu; apply (Hc x u); [rewrite Hrl; right; exact Hx|exact Hu]|exact Hn].
+Qed.
